@@ -28,7 +28,7 @@ def log(*a):
 # ------------------------------------------------------------------ harness metadata
 
 META_RE = re.compile(r"^\s*// @harness\s+(.*)$")
-FN_RE = re.compile(r"^\s*(?:pub(?:\([a-z]+\))?\s+)?fn\s+([A-Za-z0-9_]+)\s*\(")
+FN_RE = re.compile(r"^\s*(?:(?:pub(?:\([a-z]+\))?\s+)?fn\s+([A-Za-z0-9_]+)\s*[<(]|[a-z_0-9]+!\(\s*([A-Za-z0-9_]+)\s*,)")
 
 
 def parse_kv(s):
@@ -100,7 +100,7 @@ def load_harnesses():
             if pending is not None:
                 f = FN_RE.match(ln)
                 if f:
-                    hs.append(Harness(f.group(1), frag, target, pending))
+                    hs.append(Harness(f.group(1) or f.group(2), frag, target, pending))
                     pending = None
     names = [h.name for h in hs]
     dup = {n for n in names if names.count(n) > 1}
